@@ -564,6 +564,12 @@ func propC09(c *Ctx) {
 	if !c.Anchor(rp, "VM.abort", fAbort >= 0) {
 		return
 	}
+	defer func() {
+		rlf := c.Rule("lock-first", "a method of VM that takes the VM's mutex writes the VM's state (the abort flag included) only after the Lock call: a queued Run never erases an Abort aimed at the run in progress", 3)
+		ruleLockFirst(c, rlf, vf)
+		rao := c.Rule("aborted-own", "Aborted reports the abort flag of the VM it is called on, not another VM's", 1)
+		ruleAbortedOwn(c, rao, vf)
+	}()
 	// poll: an atomic Load of abort in a block that lies on a cycle and dominates the dispatch
 	{
 		found := false
